@@ -389,10 +389,12 @@ func formatPostingWithOpts(posting *ast.Posting, alignment AlignmentInfo, commod
 // commodityText returns the commodity symbol as it was written in the source: in double
 // quotes if it stood in double quotes there. The tree keeps the symbol without its quotes, and
 // writing `"AAPL 2" 3` back as `AAPL 23` would change the commodity and the quantity.
+// An empty quoted symbol (`1 ""`, or a lone `"` before the end of the line) keeps its quotes as
+// well: an amount without a commodity has no commodity range, an empty quoted one has.
 // content is the text the tree was parsed from ("" when unknown: symbols are written bare).
 func commodityText(c *ast.Commodity, content string) string {
 	start := c.Range.Start.Offset
-	if c.Symbol != "" && start >= 0 && start < len(content) && content[start] == '"' {
+	if start >= 0 && start < len(content) && content[start] == '"' && (c.Symbol != "" || c.Range.End.Offset > start) {
 		return `"` + c.Symbol + `"`
 	}
 	return c.Symbol
